@@ -227,7 +227,11 @@ Proof.
   { unfold n1, n1_view, update_observers, increment_voting_round. cbn. split; [exact N1n|].
     intros H; contradiction. }
   split.
-  { unfold kok, update_observers, increment_voting_round. cbn. intros p [Hp|[]]. apply Xk. right; exact Hp. }
+  { destruct Xk as [Xk0 [Yv Yn]]. split.
+    - unfold kok0, update_observers, increment_voting_round. cbn. intros p [Hp|[]]. apply Xk0. right; exact Hp.
+    - split.
+      + apply (yview_bump (st_rounds s) (st_replayed s) (k_nxt s)). exact Yn.
+      + apply yview_fresh. reflexivity. }
   change (SI ih ivs (mk_stores (v_h (k_nxt s), v_r (k_nxt s), v_h (k_com s), v_r (k_com s))
                                (st_hdrs s) (st_rounds s) (st_replayed s))).
   rewrite Hnh.
@@ -329,7 +333,8 @@ Proof.
     split.
     { unfold n1, n1_view, shift_voting_to_committing, update_observers. cbn. split; intros H; contradiction. }
     split.
-    { unfold kok, shift_voting_to_committing, update_observers. cbn. intros q [[]|[]]. }
+    { split; [unfold kok0, shift_voting_to_committing, update_observers; cbn; intros q [[]|[]]|].
+      split; apply yview_fresh; reflexivity. }
     exists (v_h (k_vot s) + 1), 0, (v_h (k_vot s)), (v_r (k_vot s)).
     unfold stores_of. cbn [sr_nhr sr_hdrs sr_rounds sr_replayed]. rewrite Ehdrs.
     split.
@@ -352,7 +357,7 @@ Proof.
     { intros h x cp [E|Hx]; [|eapply Hfine; exact Hx]. inversion E; subst.
       destruct (HP p (or_introl Hin)) as [W1 W2].
       destruct Hc as (_&_&_&_&_&_&_&_&_&Hphs&_). destruct (Hphs p (or_introl Hin)) as (_&_&Pnext&_).
-      split; [exact W1|]. split; [exact Pnext|]. split; [exact W2|]. apply Xk. left; exact Hin. }
+      split; [exact W1|]. split; [exact Pnext|]. split; [exact W2|]. apply (proj1 Xk). left; exact Hin. }
     split.
     { destruct HI' as (_&_&_&Hh'). unfold hinv in Hh'. rewrite Ehdrs in Hh'. exact Hh'. }
     split.
